@@ -39,6 +39,9 @@ pub async fn finish(sim: &mut Sim, idle_ms: u64) {
     // Background dials may still be in flight; let connect timeouts and one more idle period pass.
     settle(sim, idle_ms + 3_000).await;
     settle(sim, idle_ms + 3_000).await;
+    // (not on a connectivity-check boundary: a background dial that a check has just started registers on
+    // the dialer a few milliseconds before it does on the listener)
+    settle(sim, 1_237).await;
     sim.obs_all_peers();
     sim.run.obs(-1, "obs.quiesce", json!({}));
     // every listed peer is reachable
